@@ -153,25 +153,9 @@ func (tc *TypeConverter) TypeToExpr(t types.Type) ast.Expr {
 	}
 	switch typ := t.(type) {
 	case *types.Named:
-		obj := typ.Obj()
-		if obj.Pkg() == nil {
-			// Built-in type (e.g., error)
-			return ast.NewIdent(obj.Name())
-		}
-		// Check if this type is from an external package
-		if tc.currentPkg != nil && obj.Pkg() != tc.currentPkg {
-			// External package - add import and generate SelectorExpr
-			pkgPath := obj.Pkg().Path()
-			pkgName := obj.Pkg().Name()
-			qualifier := ast.NewIdent(tc.AddImport(pkgPath, pkgName))
-			tc.qualifiers[qualifier] = struct{}{}
-			return &ast.SelectorExpr{
-				X:   qualifier,
-				Sel: ast.NewIdent(obj.Name()),
-			}
-		}
-		// Same package - just use the type name
-		return ast.NewIdent(obj.Name())
+		return tc.typeNameToExpr(typ.Obj(), typ.TypeArgs())
+	case *types.Alias:
+		return tc.typeNameToExpr(typ.Obj(), typ.TypeArgs())
 	case *types.Pointer:
 		return &ast.StarExpr{X: tc.TypeToExpr(typ.Elem())}
 	case *types.Slice:
@@ -188,6 +172,25 @@ func (tc *TypeConverter) TypeToExpr(t types.Type) ast.Expr {
 			return &ast.InterfaceType{Methods: &ast.FieldList{}}
 		}
 		return ast.NewIdent("any")
+	case *types.Signature:
+		params := &ast.FieldList{}
+		for i := 0; i < typ.Params().Len(); i++ {
+			paramType := tc.TypeToExpr(typ.Params().At(i).Type())
+			if typ.Variadic() && i == typ.Params().Len()-1 {
+				if slice, ok := typ.Params().At(i).Type().(*types.Slice); ok {
+					paramType = &ast.Ellipsis{Elt: tc.TypeToExpr(slice.Elem())}
+				}
+			}
+			params.List = append(params.List, &ast.Field{Type: paramType})
+		}
+		var results *ast.FieldList
+		if typ.Results().Len() > 0 {
+			results = &ast.FieldList{}
+			for i := 0; i < typ.Results().Len(); i++ {
+				results.List = append(results.List, &ast.Field{Type: tc.TypeToExpr(typ.Results().At(i).Type())})
+			}
+		}
+		return &ast.FuncType{Params: params, Results: results}
 	case *types.Array:
 		return &ast.ArrayType{
 			Len: &ast.BasicLit{Kind: token.INT, Value: fmt.Sprintf("%d", typ.Len())},
@@ -210,6 +213,33 @@ func (tc *TypeConverter) TypeToExpr(t types.Type) ast.Expr {
 	default:
 		return ast.NewIdent(t.String())
 	}
+}
+
+// typeNameToExpr spells a (possibly instantiated) named type or alias, qualified with its
+// package when it is declared outside the current one.
+func (tc *TypeConverter) typeNameToExpr(obj *types.TypeName, typeArgs *types.TypeList) ast.Expr {
+	var expr ast.Expr = ast.NewIdent(obj.Name())
+	// obj.Pkg() is nil for built-in types (e.g., error)
+	if obj.Pkg() != nil && tc.currentPkg != nil && obj.Pkg() != tc.currentPkg {
+		// External package - add import and generate SelectorExpr
+		qualifier := ast.NewIdent(tc.AddImport(obj.Pkg().Path(), obj.Pkg().Name()))
+		tc.qualifiers[qualifier] = struct{}{}
+		expr = &ast.SelectorExpr{
+			X:   qualifier,
+			Sel: ast.NewIdent(obj.Name()),
+		}
+	}
+	if typeArgs.Len() == 0 {
+		return expr
+	}
+	args := make([]ast.Expr, 0, typeArgs.Len())
+	for i := 0; i < typeArgs.Len(); i++ {
+		args = append(args, tc.TypeToExpr(typeArgs.At(i)))
+	}
+	if len(args) == 1 {
+		return &ast.IndexExpr{X: expr, Index: args[0]}
+	}
+	return &ast.IndexListExpr{X: expr, Indices: args}
 }
 
 // lastPathElement returns the last element of an import path.
